@@ -693,3 +693,16 @@ def replay(data):
             return py_holds_dir([("s", chr(c))], o)
         return py_holds_lit(chr(c) + "\n", o)
     return False
+
+
+# --- translated small functions (tools/gens/gen_pure.py): Props/T_radix50.v proves the regenerated Python functions
+# equal to the hand models this property's theorems are about; explore_t cross-checks the translator itself
+import t_check  # noqa: E402
+PROP_FILES = PROP_FILES + ["Props/T_rad50.v"]
+RUN_FILES = RUN_FILES + ["Run/TRunRad50.v"]
+_explore_without_t = explore
+
+
+def explore(rep, br, tier, seed):
+    _explore_without_t(rep, br, tier, seed)
+    t_check.explore_t(rep, tier, seed, pid=ID, only=["radix50"])
